@@ -170,8 +170,9 @@ fn history(c: &mut Case, init: usize, steps: usize, big: bool) {
         3 => {
             let d = [0.0, 0.02, 0.5, 0.98, 1.0][c.rng().random_range(0..5)];
             m = gen_bits(c.rng(), len0, Pattern::Density(d));
-            b = m.iter().copied().collect();
-            trace.push(format!("collect(len {} dens {})", len0, d));
+            let mode: u8 = c.rng().random_range(0..6);
+            b = HintIter::new(m.iter().copied(), m.len(), mode).collect();
+            trace.push(format!("collect(len {} dens {}, {})", len0, d, HintIter::<std::ops::Range<usize>>::mode_name(mode)));
         }
         4 => {
             b = BitVec::with_value(len0, false);
@@ -287,9 +288,10 @@ fn history(c: &mut Case, init: usize, steps: usize, big: bool) {
                 let n = c.rng().random_range(0..150);
                 let d = [0.0, 0.5, 1.0][c.rng().random_range(0..3)];
                 let ext = gen_bits(c.rng(), n, Pattern::Density(d));
-                b.extend(ext.iter().copied());
+                let mode: u8 = c.rng().random_range(0..6);
+                b.extend(HintIter::new(ext.iter().copied(), ext.len(), mode));
                 m.extend(ext.iter().copied());
-                trace.push(format!("extend({} bits dens {})", n, d));
+                trace.push(format!("extend({} bits dens {}, {})", n, d, HintIter::<std::ops::Range<usize>>::mode_name(mode)));
                 mutations += 1;
             }
             68..=75 => {
@@ -310,7 +312,7 @@ fn history(c: &mut Case, init: usize, steps: usize, big: bool) {
             }
             93..=95 => {
                 // rebuild through FromIterator of the current contents
-                let nb: BitVec = b.iter().collect();
+                let nb: BitVec = if c.rng().random_bool(0.5) { b.iter().collect() } else { b.iter().filter(|_| true).collect() };
                 c.check("collect", nb == b && nb.len() == m.len(), || format!("collect(iter()) != original; {}", tr(&trace)));
                 if c.rng().random_bool(0.5) {
                     b = nb;
